@@ -33,6 +33,15 @@ def weight {α : Type} [Mul α] [Sub α] [OfNat α 1] : List α → Nat → α
 def linGeneric {α : Type} [Add α] [Mul α] [Sub α] [OfNat α 1] [OfNat α 0] (as : List α) (v : List Bool → α) : α :=
   (List.range (2 ^ as.length)).foldl (fun acc n => acc + weight as n * v (bitsOf as.length n)) 0
 
+/-- the same weight in the association order of the code: `f = 1; for m: f *= (n & (1<<m)) ? vs[m] : rs[m]` -/
+def weightGo {α : Type} [Mul α] [Sub α] [OfNat α 1] : List α → Nat → α → α
+  | [], _, f => f
+  | a :: as, n, f => weightGo as (n / 2) (f * (if n % 2 == 1 then a else 1 - a))
+def weightC {α : Type} [Mul α] [Sub α] [OfNat α 1] (as : List α) (n : Nat) : α := weightGo as n 1
+/-- generic branch with the code's left-to-right weight product -/
+def linGenericC {α : Type} [Add α] [Mul α] [Sub α] [OfNat α 1] [OfNat α 0] (as : List α) (v : List Bool → α) : α :=
+  (List.range (2 ^ as.length)).foldl (fun acc n => acc + weightC as n * v (bitsOf as.length n)) 0
+
 /-- 1-D branch -/
 def lin1 {α : Type} [Add α] [Mul α] [Sub α] [OfNat α 1] (a : α) (v : List Bool → α) : α :=
   (1 - a) * v [false] + a * v [true]
